@@ -15,7 +15,8 @@ RULE = ("regular cubes with ascending/descending, unit/non-unit axes (incl. nega
         "order), iteration, len(), depth_slice/trace/header with int, negative int and slices of any non-zero step, "
         "attributes(field)[...], ilines/xlines/samples/tracecount, bin, text[0], tools.dt, tools.cube; canonical form "
         "(kind, length, shapes, key order, values) on seismic_zfp.open(sgz) vs segyio.open(sgy) vs the Lean model of both"
-        "; K: Model/Emul sliceIndices/pyRange vs CPython; lineSlice vs accessors.SliceAccessor and vs segyio.Line.ranges (also outside the property's grammar); accessorSlice vs accessors.Accessor")
+        "; K: Model/Emul sliceIndices/pyRange vs CPython; lineSlice vs accessors.SliceAccessor and vs segyio.Line.ranges (also outside the property's grammar); accessorSlice vs accessors.Accessor"
+        "; subvolume[a:b:c, ...] on synthetic files whose axes ascend, descend and pass through line number 0 at any position: samples vs the decoded volume (symbolic decoder), subvolumeAxis vs the accessor's helpers")
 
 
 def canon(v, vol_lookup=None):
@@ -263,6 +264,10 @@ def run(ctx):
             ctx.case((tuple(il[:2]), n, 'tools.cube'))
             if cz.shape != tuple(n) or not np.array_equal(cz, vol):
                 ctx.fail('tools.cube differs from the decoded volume', desc)
+        # subvolume[a:b:c, ...] by line numbers / sample times (steps in axis order, axes ascending, descending, through 0):
+        # samples vs the decoded volume, and K: Model/Emul.subvolumeAxis vs the accessor's helpers
+        from . import c02_emul
+        c02_emul.run(ctx, gen.rng_for(ctx.seed, 'c13-subvolume'), model, n_quick=12, n_thorough=150)
     finally:
         model.close()
 
